@@ -104,7 +104,8 @@ Definition gather_cols (row : list Z) (idx : list Z) : option (list Z) :=
    one output row per selected sample.  No sync word: the fancy index is
    empty, split_sync returns a (0, 16) array.  Two or more words per sample:
    the fancy-indexed block is not C-contiguous and `.view(np.uint8)` raises
-   ValueError (None here; an empty selection still passes) — see Props.v C10_multiword_digital_refuted. *)
+   ValueError (None here; an empty selection still passes, a single selected
+   sample yields one row per word) — see Props.v C10_multiword_digital_refuted. *)
 Definition read_sync_digital (typ ntr c0 c1 c2 c3 start stop : Z) (raw : list (list Z))
   : option (list (list Z)) :=
   let rows := slice_rows start stop raw in
@@ -114,7 +115,12 @@ Definition read_sync_digital (typ ntr c0 c1 c2 c3 start stop : Z) (raw : list (l
            | Some ws => Some (split_sync ws)
            | None => None
            end
-  | _ => match rows with [] => Some [] | _ => None end
+  | idx => match rows with
+           | [] => Some []
+           | [r] =>        (* a (1, k) block is contiguous: k rows come back for the one sample *)
+               match gather_cols r idx with Some ws => Some (split_sync ws) | None => None end
+           | _ => None
+           end
   end.
 
 (* Analog values are handled as exact integers in units of 1/one volt
